@@ -73,7 +73,11 @@ EffectiveParams(doc, xk, M, p, gn) == FoldParams(doc, ParamList(doc, xk, M, p), 
 BadRefs(doc, xk, M, p) ==
   LET L == ParamList(doc, xk, M, p) IN SelectSeq([i \in DOMAIN L |-> IF BadParam(doc, L[i]) THEN <<RefOf(L[i]), RefKind(doc, RefOf(L[i]))>> ELSE <<>>], LAMBDA x : x # <<>>)
 
-\* projection of a parameter map to what the harness records: key -> <<name, in, hasRef>>
-Brief(n) == <<ParamName(n), AttrStr(n, "in"), HasRef(n)>>
+\* projection of a parameter map to what the harness records: key -> <<name, in, hasRef, description|type>>
+Brief(n) == <<ParamName(n), AttrStr(n, "in"), HasRef(n), AttrStr(n, "description") \o "|" \o AttrStr(n, "type")>>
 BriefMap(f) == [k \in DOMAIN f |-> Brief(f[k])]
+\* every (key, parameter) the fold meets, overridden or not (what a run stopped half-way may hold)
+Candidates(doc, xk, M, p, gn) ==
+  LET L == ParamList(doc, xk, M, p) IN
+  { <<ParamKey(Resolved(doc, L[i]), gn), Brief(Resolved(doc, L[i]))>> : i \in { j \in DOMAIN L : ~BadParam(doc, L[j]) } }
 =============================================================================
